@@ -179,6 +179,19 @@ def r06_3(ctx: Ctx) -> None:
                         ok = True
             ctx.check(ok, "R06.3", f, d, f"{qn}: one CRC per defined entry of {vec}", f"{qn}: {why}: a conforming archive with a partially defined digest vector is rejected", construct=f"{qn} digest count")
     ctx.floor("R06.3", n, 3, "digest vectors read with the all-defined shortcut")
+    # SubStreamsInfo: the vector covers only streams whose digest is not already given by the folder CRC
+    f = ctx.prog.func("archiveinfo", "SubstreamsInfo._read")
+    rb = [c for c in q.calls(f) if attr_tail(c) == "read_boolean"]
+    for c in rb:
+        cnt = c.args[1]
+        if not isinstance(cnt, ast.Name):
+            ctx.fail("R06.3", f, c, "the number of substream digests is not a counted local")
+            continue
+        incs = [x for x in walk(f.node) if isinstance(x, ast.AugAssign) and norm(x.target) == cnt.id]
+        ok = bool(incs) and all(any("digestdefined" in norm(cd) for cd, pol in q.facts_at(f, i)) for i in incs)
+        ctx.check(ok, "R06.3", f, c, "substream digest vector excludes single-stream folders that carry a folder CRC",
+                  f"the SubStreamsInfo digest vector is sized by `{cnt.id}`, which also counts single-stream folders whose digest is the folder CRC: "
+                  "a conforming archive mixing folder-level and per-file CRCs is over-read and rejected")
     # values are attached by walking the defined flags (no index shift)
     f = ctx.prog.func("archiveinfo", "SubstreamsInfo._read")
     ok = True
